@@ -30,3 +30,68 @@ Print Assumptions C12_uint_roundtrip.
 Theorem C12_format_total : forall z base, good_base base -> exists t, format_int z base = Some t.
 Proof. exact format_int_total. Qed.
 Print Assumptions C12_format_total.
+
+(* ---- added by bin/mkprops ---- *)
+From GoFlags Require Import Base.Str Base.Utf8 Golib.Strings Golib.Strconv Model.Types Model.Tag Model.Scan Model.Lookup Model.Convert Model.State Model.Closest Model.Help Model.Parse Model.Ini Model.Complete.
+From GoFlags Require Import Proofs.IniRoundtrip.
+
+(* what the writer emits unquoted the reader reads back identically *)
+Theorem C12_plain_line :
+  forall (name : str) (is_string : bool) (v : list N),
+         ini_name_ok name ->
+         v <> [] ->
+         all_print v = true ->
+         trim_space v = v ->
+         hd 0 v <> 34 ->
+         write_option name is_string [] v false false = name ++ s2l " = " ++ v ++ [10] /\
+         classify_line (removelast (write_option name is_string [] v false false)) = LEntry name v false /\
+         classify_line (write_option name is_string [] v false false) = LEntry name v false.
+Proof. exact C12_line_roundtrip_plain. Qed.
+Print Assumptions C12_plain_line.
+
+(* what the writer quotes (non-printable, edge white space, leading quote, forced) the reader unquotes to the same bytes, for every byte string *)
+Theorem C12_quoted_line :
+  forall (name : str) (is_string force : bool) (v : str),
+         ini_name_ok name ->
+         QuoteSpec.bytes_ok v ->
+         force || is_string && ini_needs_quote v = true ->
+         write_option name is_string [] v false force = name ++ s2l " = " ++ quote v ++ [10] /\
+         classify_line (removelast (write_option name is_string [] v false force)) = LEntry name v true /\
+         classify_line (write_option name is_string [] v false force) = LEntry name v true.
+Proof. exact C12_line_roundtrip_quoted. Qed.
+Print Assumptions C12_quoted_line.
+
+Theorem C12_empty_value_line :
+  forall (name : str) (is_string : bool),
+         ini_name_ok name ->
+         write_option name is_string [] [] false false = name ++ s2l " =" ++ [10] /\
+         classify_line (removelast (write_option name is_string [] [] false false)) = LEntry name [] false /\
+         classify_line (write_option name is_string [] [] false false) = LEntry name [] false.
+Proof. exact C12_line_roundtrip_empty. Qed.
+Print Assumptions C12_empty_value_line.
+
+Theorem C12_commented_lines_skipped :
+  forall (name : str) (is_string : bool) (key v : str) (force : bool),
+         classify_line (removelast (write_option name is_string key v true force)) = LSkip /\
+         classify_line (write_option name is_string key v true force) = LSkip.
+Proof. exact C12_commented_lines_are_skipped. Qed.
+Print Assumptions C12_commented_lines_skipped.
+
+Theorem C12_section_header :
+  forall sname : list N,
+         sname <> [] ->
+         trim_space sname = sname ->
+         classify_line (s2l "[" ++ sname ++ s2l "]") = LHeader sname /\
+         classify_line (s2l "[" ++ sname ++ s2l "]" ++ [10]) = LHeader sname.
+Proof. exact C12_section_header_roundtrip. Qed.
+Print Assumptions C12_section_header.
+
+Theorem C12_quoted_entry_one_line :
+  forall (name : list N) (is_string force : bool) (v : str),
+         ~ In 10 name ->
+         QuoteSpec.bytes_ok v ->
+         force || is_string && ini_needs_quote v = true ->
+         ini_lines (write_option name is_string [] v false force) = [name ++ s2l " = " ++ quote v].
+Proof. exact C12_quoted_entry_is_one_line. Qed.
+Print Assumptions C12_quoted_entry_one_line.
+
